@@ -121,7 +121,13 @@ impl Builder {
     fn poison(&mut self, kind: u8) -> Vec<Ln> {
         self.poison_count += 1;
         let raw = |s: &str| Ln::st(St::Raw(s.to_string()));
-        match kind % 16 {
+        match kind % 21 {
+            // nested conditionals whose own condition is not valid: still a conditional, balanced
+            16 => vec![raw(".if 1 +"), raw(".dw 0xdead"), raw(".endif")],
+            17 => vec![raw(&format!(".if {}1{}", "(".repeat(200), ")".repeat(200))), raw(".dw 0xdead"), raw(".else"), raw(".dw 0xbeef"), raw(".endif")],
+            18 => vec![raw(".ifdef"), raw(".dw 0xdead"), raw(".endif")],
+            19 => vec![raw(".if @3 > (("), raw(".dw 0xdead"), raw(".elif ))"), raw(".dw 0xbeef"), raw(".endif")],
+            20 => vec![raw(".ifndef 5 5"), raw(".error \"poison\""), raw(".endif")],
             0 => vec![raw("this is not assembly (( at all")],
             1 => vec![raw(".error \"poison\"")],
             2 => vec![raw(".message \"poison message\"")],
